@@ -148,6 +148,11 @@ func UnpackLayer(dest string, layer io.Reader, options *TarOptions) (size int64,
 				if !isWithin(dest, originalPath) {
 					return 0, breakoutError(fmt.Errorf("%q is outside of %q", hdr.Name, dest))
 				}
+				// os.RemoveAll opens the parent of a path it cannot unlink
+				// directly; never let that parent be a fifo or a device.
+				if fi, err := os.Stat(dir); err == nil && !fi.IsDir() {
+					return 0, fmt.Errorf("whiteout %q: %q is not a directory", hdr.Name, dir)
+				}
 				if err := os.RemoveAll(originalPath); err != nil {
 					return 0, err
 				}
